@@ -110,7 +110,8 @@ def run(ctx):
         referenced by two attributes), and two attributes in one non-body location"""
         singles = hc.sample_shapes(hc.gen_vectors(ctx, fam, 1, 1), frac, ctx.seed, strata="coarse")
         allv = hc.gen_vectors(ctx, fam, 1, 1, label="Gen %s 1x1 (for pairs)" % fam)
-        return singles, [v for mode in ("twin", "sameloc") for v in hc.combine_cases(ctx, allv, npair, ctx.seed, fam=fam, mode=mode)]
+        # (results: also two tagged responses, in both declaration orders)
+        return singles, [v for mode in ("twin", "sameloc") + (("twotags",) if fam == "res" else ()) for v in hc.combine_cases(ctx, allv, npair if mode != "twotags" else npair // 4, ctx.seed, fam=fam, mode=mode)]
     # the enumerations are independent TLC runs: both families and the whole-design programs side by side
     pool = cf.ThreadPoolExecutor(max_workers=3)
     fam_future = pool.submit(family_programs, ctx, quick)
@@ -121,7 +122,7 @@ def run(ctx):
             k = hg.shape_key(v)
             if k not in seen:
                 seen.add(k)
-                shapes.append({"pa": v["pa"], "ra": v["ra"], "tagged": v.get("tagged", False)})
+                shapes.append({"pa": v["pa"], "ra": v["ra"], "tagged": v.get("tagged", False), "tags": hg.tags_of(v)})
     designs, where = hg.pack_designs(shapes, 40)
     for d in designs:
         d["api"]["servers"] = 1
